@@ -6,21 +6,39 @@ import (
 	"reflect"
 	"sort"
 	"strconv"
+	"unsafe"
 )
 
-// Export hooks for the verification harness (/verif). They only read state.
+// Export hooks for the verification harness (/verif). They reach the private state through
+// reflection only, so that they still compile (and degrade to "not inspectable") when the
+// layout of a struct changes.
 
-// VerifBitListState returns the complete concrete state of a BitList.
-func VerifBitListState(bl *BitList) (count int, words []int32) {
-	return bl.count, append([]int32(nil), bl.data...)
-}
-
-// VerifRSCache returns a copy of the generator polynomials cached by rs.
+// VerifRSCache returns a copy of the generator polynomials cached by rs, or nil if the cache is
+// not a plain slice of polynomials any more.
 func VerifRSCache(rs *ReedSolomonEncoder) [][]int {
-	out := make([][]int, len(rs.polynomes))
-	for i, p := range rs.polynomes {
-		if p != nil {
-			out[i] = append([]int(nil), p.Coefficients...)
+	v := reflect.ValueOf(rs).Elem().FieldByName("polynomes")
+	if !v.IsValid() || v.Kind() != reflect.Slice {
+		return nil
+	}
+	out := make([][]int, v.Len())
+	for i := 0; i < v.Len(); i++ {
+		e := v.Index(i)
+		for e.Kind() == reflect.Ptr || e.Kind() == reflect.Interface {
+			if e.IsNil() {
+				break
+			}
+			e = e.Elem()
+		}
+		if e.Kind() != reflect.Struct {
+			continue
+		}
+		c := e.FieldByName("Coefficients")
+		if !c.IsValid() || c.Kind() != reflect.Slice {
+			return nil
+		}
+		out[i] = make([]int, c.Len())
+		for j := range out[i] {
+			out[i][j] = int(c.Index(j).Int())
 		}
 	}
 	return out
@@ -31,19 +49,46 @@ func VerifPoly(gf *GaloisField, coeff []int) *GFPoly {
 	return NewGFPoly(gf, append([]int(nil), coeff...))
 }
 
-// VerifBitListClone returns a deep copy with the same count, words and capacity.
-func VerifBitListClone(bl *BitList) *BitList {
-	return &BitList{count: bl.count, data: append([]int32(nil), bl.data...)}
+func settable(f reflect.Value) reflect.Value {
+	return reflect.NewAt(f.Type(), unsafe.Pointer(f.UnsafeAddr())).Elem()
 }
 
-// VerifRSSetCache replaces the cached generator polynomials of rs by copies of polys
-// (a state previously read with VerifRSCache); used to return to a BFS node.
-func VerifRSSetCache(rs *ReedSolomonEncoder, polys [][]int) {
-	ps := make([]*GFPoly, len(polys))
-	for i, p := range polys {
-		ps[i] = &GFPoly{rs.gf, append([]int(nil), p...)}
+// VerifBitListClone returns a deep copy (every field; slices are copied with their capacity).
+func VerifBitListClone(bl *BitList) *BitList {
+	n := new(BitList)
+	reflect.ValueOf(n).Elem().Set(reflect.ValueOf(bl).Elem())
+	v := reflect.ValueOf(n).Elem()
+	for i := 0; i < v.NumField(); i++ {
+		f := v.Field(i)
+		if f.Kind() == reflect.Slice && !f.IsNil() {
+			w := settable(f)
+			c := reflect.MakeSlice(f.Type(), f.Len(), f.Cap())
+			reflect.Copy(c, w)
+			w.Set(c)
+		}
 	}
-	rs.polynomes = ps
+	return n
+}
+
+// VerifRSSetCache replaces the cached generator polynomials of rs by copies of polys (a state
+// previously read with VerifRSCache); it reports false if the cache cannot be set that way.
+func VerifRSSetCache(rs *ReedSolomonEncoder, polys [][]int) (ok bool) {
+	defer func() {
+		if recover() != nil {
+			ok = false
+		}
+	}()
+	v := reflect.ValueOf(rs).Elem()
+	f := v.FieldByName("polynomes")
+	if !f.IsValid() || f.Kind() != reflect.Slice || polys == nil {
+		return false
+	}
+	ns := reflect.MakeSlice(f.Type(), len(polys), len(polys))
+	for i, p := range polys {
+		ns.Index(i).Set(reflect.ValueOf(NewGFPoly(rs.gf, append([]int(nil), p...))))
+	}
+	settable(f).Set(ns)
+	return true
 }
 
 // VerifDeepKey digests every field of v (also unexported ones, through reflection) into a
